@@ -202,7 +202,7 @@ static void spreadCase(vh::Out &out, const std::string &id, vh::Rng &g, bool exa
           }
           if (v > (float)lo && v < (float)hi) out.count("spread_strictly_inside"); else out.count("spread_on_edge");
         }
-        if (cellsOf[i][j].size() >= 2) out.nontrivial(vh::hashStr(op.str() + "#" + std::to_string(nb)));
+        if (cellsOf[i][j].size() >= 2) out.nontrivial(vh::hashStr(op.str()));  // one per case (a case with a bin holding >= 2 cells)
       }
     {  // every cell, in a bin or not, lies in the extent of placementArea() on the axis
       Rectangle pa = hp.placementArea();
@@ -940,7 +940,9 @@ int main(int argc, char **argv) {
     out.ops << "case " << id << "\n";
     out.impl << "case " << id << "\n";
     out.evaluations++;
+    out.beginCase();
     spreadCase(out, id, g, exact);
+    out.endCase();
   }
   // grid
   long long ng = a.thorough() ? 20000 : 2000;
@@ -951,7 +953,9 @@ int main(int argc, char **argv) {
     out.ops << "case " << id << "\n";
     out.impl << "case " << id << "\n";
     out.evaluations++;
+    out.beginCase();
     gridCase(out, id, g);
+    out.endCase();
   }
   // (b) corpus witnesses first
   std::ofstream digestFile(a.out + "/e2e_digest.txt");
